@@ -137,7 +137,7 @@ TEvRet     == IsEv("ret.ev") /\ KeepAllButE /\ UNCHANGED eenv
               /\ LET c == ecall[E.u] IN EvPost(E.u, E.t, c.op, c.ev, c.fl, c.ff, c.thr, E.rc, E.tpd = 1)
               /\ ecall' = [ecall EXCEPT ![E.u] = NoECall]
 TEvGate    == IsEv("loop.gate") /\ KeepAllButE /\ UNCHANGED <<ecall, eenv>> /\ EvGate(E.t, E.u, E.dis = 1, E.set = 1)
-TEvDeliver == IsEv("loop.cb") /\ KeepAllButE /\ UNCHANGED ecall /\ EvDeliver(E.t, E.u, E.evk)
+TEvDeliver == IsEv("loop.cb") /\ KeepAllButE /\ UNCHANGED ecall /\ (EvDeliver(E.t, E.u, E.evk) \/ EvDeliverEarly(E.t, E.u, E.evk))
               /\ eenv' = [eenv EXCEPT ![E.u].pendcb = TRUE]
 TEvCb      == IsEv("evcb") /\ KeepAllButE /\ UNCHANGED <<eVars, ecall>>
               /\ eenv[E.u].pendcb /\ E.cur = E.t                          \* the callback the loop just started, on that thread
